@@ -56,7 +56,8 @@ def simp(v):
 
 
 class WordDomain(RingDomain):
-    def __init__(self, consts=None, obj_contracts=None, leaf_bits=(64, 128, 192, 256, 384, 512, 768)):
+    def __init__(self, consts=None, obj_contracts=None, leaf_bits=(64, 128, 192, 256, 384, 512, 768), word_bits=64):
+        self.wb = word_bits         # width of BigInt::word_t in the configuration being executed (64, or 32 without __int128)
         RingDomain.__init__(self, {"BigInt<%d>" % n for n in leaf_bits}, consts=consts, obj_contracts=obj_contracts)
         self.ncarry = 0
         self.splits = {}
@@ -72,7 +73,8 @@ class WordDomain(RingDomain):
         self.trunc_products = []    # results of word*word products truncated to one word, in program order (Montgomery's u_i)
 
     # ---- values ----
-    def input_word(self, name, hi=(1 << 64) - 1):
+    def input_word(self, name, hi=None):
+        hi = (1 << self.wb) - 1 if hi is None else hi
         self.ranges[name] = hi
         return WVal(Poly.var(name), hi)
 
@@ -119,7 +121,7 @@ class WordDomain(RingDomain):
         v = wv(v)
         if v.parts is not None:
             return list(v.parts)
-        if v.hi < (1 << 64):
+        if v.hi < (1 << self.wb):
             return [simp(v)]
         return None
 
@@ -129,8 +131,8 @@ class WordDomain(RingDomain):
             ds.pop()
         if len(ds) == 1:
             return ds[0]
-        p = sum((wv(d).p * (1 << (64 * i)) for i, d in enumerate(ds)), Poly())
-        hi = sum(wv(d).hi << (64 * i) for i, d in enumerate(ds))
+        p = sum((wv(d).p * (1 << (self.wb * i)) for i, d in enumerate(ds)), Poly())
+        hi = sum(wv(d).hi << (self.wb * i) for i, d in enumerate(ds))
         return WVal(p, hi, parts=ds)
 
     def or_digit(self, u, v):
@@ -148,22 +150,23 @@ class WordDomain(RingDomain):
 
     def shift_digits(self, ds, k, width):
         """k > 0: left shift by k bits truncated to `width` bits; k < 0: right shift by -k bits"""
-        n = width // 64
+        W = self.wb
+        n = width // W
         if k < 0:
-            q, r = divmod(-k, 64)
+            q, r = divmod(-k, W)
             ds = ds[q:]
             out = []
             for i in range(len(ds)):
                 lo_i, hi_i = self.split(ds[i], r)                      # ds[i] == lo_i + 2^r * hi_i
                 nxt = self.split(ds[i + 1], r)[0] if i + 1 < len(ds) else 0
                 nxt = wv(nxt)
-                out.append(simp(WVal(wv(hi_i).p + nxt.p * (1 << (64 - r)), wv(hi_i).hi + (nxt.hi << (64 - r)))))
+                out.append(simp(WVal(wv(hi_i).p + nxt.p * (1 << (W - r)), wv(hi_i).hi + (nxt.hi << (W - r)))))
             return self.from_digits(out or [0])
-        q, r = divmod(k, 64)
+        q, r = divmod(k, W)
         out = [0] * q
         prev_hi = 0
         for d in ds:
-            lo, hi = self.split(d, 64 - r)                             # d == lo + 2^(64-r) * hi ; (d << r) mod 2^64 == lo * 2^r
+            lo, hi = self.split(d, W - r)                             # d == lo + 2^(64-r) * hi ; (d << r) mod 2^64 == lo * 2^r
             lo, ph = wv(lo), wv(prev_hi)
             out.append(simp(WVal(lo.p * (1 << r) + ph.p, (lo.hi << r) + ph.hi)))
             prev_hi = hi
@@ -310,14 +313,14 @@ class WordDomain(RingDomain):
             return self.fit(qv, ts) if op == "/" else self.fit(rv_, ts)
         if op == "*":
             r = self.fit(WVal(a.p * b.p, a.hi * b.hi), ts)
-            if self.width(ts) == 64:
+            if self.width(ts) == self.wb:
                 self.trunc_products.append(r)
             return r
         if op in ("<<", ">>"):
             if not isinstance(y, int):
                 raise SymxError("shift by a symbolic amount")
             da = self.digits(a)
-            if da is not None and y % 64:
+            if da is not None and y % self.wb:
                 return self.shift_digits(da, y if op == "<<" else -y, self.width(ts))
             if op == "<<":
                 return self.fit(WVal(a.p * (1 << y), a.hi << y), ts)
@@ -458,14 +461,14 @@ class WordDomain(RingDomain):
 
     # ---- BigInt leaves: val is a list of 64-bit words ----
     def nwords(self, t):
-        return int(BIGINT_RE.match(t).group(1)) // 64
+        return max(1, int(BIGINT_RE.match(t).group(1)) // self.wb)
 
     def words(self, leaf):
         if leaf.val is POISON:
             leaf.val = [POISON] * self.nwords(leaf.type)
         elif isinstance(leaf.val, int):
             v = leaf.val
-            leaf.val = [(v >> (64 * i)) & ((1 << 64) - 1) for i in range(self.nwords(leaf.type))]
+            leaf.val = [(v >> (self.wb * i)) & ((1 << self.wb) - 1) for i in range(self.nwords(leaf.type))]
         return leaf.val
 
     def value(self, leaf):
@@ -473,15 +476,15 @@ class WordDomain(RingDomain):
         ws = self.words(leaf)
         if any(w is POISON for w in ws):
             raise Finding("uninitialised", "read of uninitialised word of %s" % leaf.type)
-        return sum((wv(w).p * (1 << (64 * i)) for i, w in enumerate(ws)), Poly())
+        return sum((wv(w).p * (1 << (self.wb * i)) for i, w in enumerate(ws)), Poly())
 
     def zero(self, t):
         return POISON
 
     def leaf_member(self, I, leaf, name):
-        if self.is_big(leaf.type) and name in ("words", "std_dwords"):
+        if self.is_big(leaf.type) and (name == "words" or (name == "std_dwords" and self.wb == 64) or (name == "std_words" and self.wb == 32)):
             return WordArr(self, leaf)
-        if self.is_big(leaf.type) and name == "dwords":
+        if self.is_big(leaf.type) and (name == "dwords" or (name == "std_dwords" and self.wb == 32)):
             return DwordArr(self, leaf)
         if self.is_big(leaf.type) and name == "bytes":
             return ByteArr(self, leaf)
@@ -498,14 +501,14 @@ class WordDomain(RingDomain):
         m = re.search(r"BigInt<(\d+)>", ts)
         if isinstance(v, Ptr) and isinstance(v.arr, ByteCell) and m:
             bc = v.arr
-            n = int(m.group(1)) // 64
-            if bc.idx % 8:
+            n = int(m.group(1)) // self.wb
+            if bc.idx % (self.wb // 8):
                 raise SymxError("reinterpret_cast at a byte offset that is not a word boundary")
-            k = bc.idx // 8
+            k = bc.idx // (self.wb // 8)
             ws = self.words(bc.leaf)
             if k + n > len(ws):
                 raise Finding("out-of-bounds", "reinterpret_cast window [%d, %d) of a %d-word object" % (k, k + n, len(ws)))
-            return Ptr(Leaf("BigInt<%d>" % (64 * n), list(ws[k:k + n]), tag=("window", bc.leaf, k)))
+            return Ptr(Leaf("BigInt<%d>" % (self.wb * n), list(ws[k:k + n]), tag=("window", bc.leaf, k)))
         return v
 
     def contract_for(self, I, f, this, args):
@@ -553,7 +556,7 @@ class WordRef(Cell):
 
     @v.setter
     def v(self, x):
-        if isinstance(x, WVal) and x.hi >= (1 << 64):
+        if isinstance(x, WVal) and x.hi >= (1 << self.dom.wb):
             raise SymxError("store of an unreduced value into a word")
         self.dom.words(self.leaf)[self.idx] = x
 
@@ -613,12 +616,12 @@ class DwordRef(Cell):
     @v.setter
     def v(self, x):
         x = wv(x)
-        if x.hi >= (1 << 128):
+        if x.hi >= (1 << (2 * self.dom.wb)):
             raise SymxError("store of an unreduced value into a double word")
         ds = self.dom.digits(x)
         if ds is not None and len(ds) <= 2:
             lo, hi = (ds + [0])[:2]
         else:
-            lo, hi = self.dom.split(x, 64)
+            lo, hi = self.dom.split(x, self.dom.wb)
         ws = self.dom.words(self.leaf)
         ws[2 * self.idx], ws[2 * self.idx + 1] = lo, hi
